@@ -23,7 +23,7 @@ ASSUMPTIONS = ["paths are relative virtual paths; the harness Fs normalises `.`/
 
 
 def plan(tier):
-    return {"budget_s": 50 if tier == "quick" else 500, "profiles": ["R"], "min_evaluations": 5000}
+    return {"budget_s": 50 if tier == "quick" else 500, "profiles": ["R"], "min_evaluations": 2000}
 
 
 def marker(path):
